@@ -151,6 +151,24 @@ WHAT = {
     'r6-C15-B': 'the same carried set of failed workbooks, found independently for C15',
     'r6-C19-A': '.copy() dropped before the in-place upper-casing of the lookup value',
     'r6-C19-B': 'exact-match fast path compares the key with the unfiltered candidates (TRUE matches 1)',
+    'r7-C02-A': '`x ** y` + complex test replaced by math.pow (ValueError of a negative base with a fractional exponent shown as #VALUE!, not #NUM!)',
+    'r7-C02-B': 'text conversion _str memoised with an untyped lru_cache (TRUE and 1.0 share a slot)',
+    'r7-C05-A': 'replace_empty fills blanks in place (third independent agent to seed this)',
+    'r7-C05-B': 'many-argument path taken above numpy.NPY_MAXARGS instead of from 32 arguments (exactly 64 arguments fail)',
+    'r7-C06-A': 'set difference collects its pieces in a list: later areas are not split against pieces already emitted',
+    'r7-C06-B': 'range operator `:` hands on only the value blocks stored under the names of its operands\' areas',
+    'r7-C08-A': '_rebind_self writes the sh.SELF record in place (shared with the model)',
+    'r7-C08-B': 'inv-data of a range node built from single-cell outputs only',
+    'r7-C09-A': 'to_dict takes the formulas from self.cells (emptied by __getstate__, never holds the #REF! placeholders)',
+    'r7-C09-B': '_assemble_ranges adds each assembler as soon as it is built (hash order decides which blanks become nodes)',
+    'r7-C13-A': 'incremental recalculation: nodes of the previous solution not downstream of the inputs are fed back as inputs',
+    'r7-C13-B': 'int(bottom + rand*span) instead of bottom + int(rand*span) (truncation toward zero for negative bounds)',
+    'r7-C17-A': 'the same in-place _rebind_self, found independently for C17',
+    'r7-C17-B': '__getstate__ returns copy.copy(self.dsp) (sh.SELF inside still refers to the original)',
+    'r7-C18-A': 'end-of-input loop over the operator stack replaced by one test of its top',
+    'r7-C18-B': 'Number regex: [0-9] written as \\d (Unicode digits accepted) - second agent to seed this',
+    'r7-C20-A': 'untyped lru_cache in front of the DEC/BIN/OCT/HEX dispatch',
+    'r7-C20-B': 'the 1 microsecond guard of _n2time replaced by one ulp and a plain round',
 }
 FIRST1 = {
     "C01-A": "exit 2 (unrecognised rewrite)",
@@ -206,6 +224,9 @@ WHY_MISSED = {
     'r3-C08-A': 'idempotence of a graph-building pass (what a second run leaves behind) - a history property of values',
     'r3-C18-A': 'same as r2-C18-A (found independently): typestate of Token.attr',
     'r3-C18-B': 'value-level protocol between the argument counter and the shunting-yard stack',
+    'r7-C05-B': 'value-level: which argument count numpy accepts (a constant of the installed numpy)',
+    'r7-C09-B': 'needs a commutativity analysis of RangesAssembler.add over a hash-ordered iteration (it reads and extends the dispatcher\'s default values); the unchanged code orders by a partial key only',
+    'r7-C20-B': 'value-level floating-point guard',
     'r6-C07-B': 'value-level graph predicate in inverse_references (which names get an inverse link is decided from graph data; same family as C07-A)',
     'r4-C15-B': 'which key a book is stored under (upper-cased path) is value-level; the eviction itself is the documented behaviour of the handler',
 }
@@ -216,7 +237,7 @@ def main():
     for p in sorted(glob.glob(os.path.join(HERE, 'seeded', '*', 'meta.json'))):
         m = json.load(open(p))
         metas[m['id']] = m
-    for rnd in (1, 2, 3, 4, 5, 6):
+    for rnd in (1, 2, 3, 4, 5, 6, 7):
         print('\n**Round %d**\n' % rnd)
         print('| seed | what was changed | first run | now: own check (rule) '
               '| now: other checks |')
